@@ -48,3 +48,9 @@ class _F:
 @harness(pre=['0 <= v <= 9'], family='shim')
 def format_of_object(v: int) -> bool:
     return f'{_F(v)}' == 'F(' + str(v) + ')'
+
+
+@harness(pre=['0 <= x <= 0xFFFF'], family='shim')
+def and_with_masks(x: int) -> bool:
+    return ((x & 0x0F) == x % 16 and (x & 0xF0) == (x // 16) % 16 * 16 and (x & 0x8001) == (x // 32768) * 32768 + x % 2
+            and ((x >> 6) & 3) == (x // 64) % 4 and (x & 0) == 0 and (0xFF & x) == x % 256)
